@@ -374,6 +374,55 @@ def tcut_case(args):
     return {"evals": kmax + 1, "vio": vio}
 
 
+# ------------------------------------------------------------------------------------------------
+# result containers: whatever the order in which (time, state[, field]) entries are put in -- by add() or through the
+# constructor -- times come out sorted and every state / field stays with its own time
+
+def container_case(perm):
+    from oqupy.dynamics import Dynamics, MeanFieldDynamics
+    ts = [0.5 * k - 0.7 for k in perm]                       # distinct times, in the order of insertion
+
+    def st(t, j=0):                                          # self-identifying payloads
+        return np.array([[t + j, 1j * t], [-1j * t, 2.0 - t]], dtype=complex)
+
+    def fld(t):
+        return complex(t, 2 * t + 1)
+    vio = []
+
+    def check(kind, how, times, states_list, fields):
+        if list(times) != sorted(times):
+            vio.append((f"container|{kind}|{how}|times-not-sorted", f"insertion order {ts}: times {list(times)}"))
+            return
+        for j, states in enumerate(states_list):
+            if len(states) != len(times) or any(np.abs(states[i] - st(times[i], j)).max() > 0 for i in range(len(times))):
+                vio.append((f"container|{kind}|{how}|state-not-at-its-time", f"insertion order {ts}, system {j}"))
+                return
+        if fields is not None and (len(fields) != len(times) or any(fields[i] != fld(times[i]) for i in range(len(times)))):
+            vio.append((f"container|{kind}|{how}|field-not-at-its-time",
+                        f"insertion order {ts}: fields {list(fields)} for times {list(times)}"))
+    try:
+        d = Dynamics()
+        for t in ts:
+            d.add(t, st(t))
+        check("Dynamics", "add", d.times, [d.states], None)
+        d = Dynamics(times=list(ts), states=[st(t) for t in ts])
+        check("Dynamics", "constructor", d.times, [d.states], None)
+        m = MeanFieldDynamics()
+        for t in ts:
+            m.add(t, [st(t, 0), st(t, 1)], fld(t))
+        check("MeanFieldDynamics", "add", m.times, [x.states for x in m.system_dynamics], m.fields)
+        ft, fe = m.field_expectations()
+        check("MeanFieldDynamics", "add+field_expectations", ft, [], fe)
+        for x in m.system_dynamics:
+            if list(x.times) != list(m.times):
+                vio.append(("container|MeanFieldDynamics|add|system-times-differ-from-times", f"insertion order {ts}"))
+        m = MeanFieldDynamics(times=list(ts), system_states_list=[[st(t, 0), st(t, 1)] for t in ts], fields=[fld(t) for t in ts])
+        check("MeanFieldDynamics", "constructor", m.times, [x.states for x in m.system_dynamics], m.fields)
+    except Exception as ex:  # noqa
+        vio.append((f"container|exception:{type(ex).__name__}", f"insertion order {ts}: {ex}"[:160]))
+    return {"vio": vio, "evals": 5}
+
+
 def run(tier, seed):
     rep = Report(LEVEL)
     mmax = 1000
@@ -407,6 +456,13 @@ def run(tier, seed):
         transitions += r["evals"]
         for cls, what, m in r["vio"]:
             rep.add(Violation(cls, what, {"part": "T", "dt": sh, "m": m, "cls": cls}))
+    perms = [p_ for L in (2, 3, 4, 5) for p_ in itertools.permutations(range(L))]
+    resC = pmap(container_case, perms, seed=seed)
+    for p_, r in zip(perms, resC):
+        transitions += r["evals"]
+        states += 1
+        for cls, what in r["vio"]:
+            rep.add(Violation(cls, what, {"part": "C", "perm": list(p_), "cls": cls}))
     rep.violations.sort(key=lambda v: (v["replay"].get("m", 0)))
     rep.coverage = {
         "states": states,
@@ -414,7 +470,7 @@ def run(tier, seed):
         "traces_validated_against_impl": transitions,
         "exhaustive": True,
         "lattice": {"dt": DTS, "start": STARTS, "end_forms": FORMS, "m": [0, mmax]},
-        "public_route_m_max": mb,
+        "public_route_m_max": mb, "container_insertion_orders": len(perms),
         "distinct_outcomes": sorted(outcomes),
         "rule": "state = (object kind, dt, start, end form, m) lattice point; every point of the product is run "
                 "(off-grid forms only where the exact quotient lies in (n+0.1, n+0.9999)); transitions = real "
@@ -464,6 +520,10 @@ def replay(rp):
                 vio.append((f"PtTempo|{form}|" + ("dropped-last-step" if obs["steps"] in (n_exp - 1, "AssertionError")
                                                   else "other"), "", m))
         return {"obs": obs, "violation": vio[0][0] if vio else None}
+    if part == "C":
+        r = container_case(tuple(rp["perm"]))
+        hit = [v for v in r["vio"] if v[0] == rp.get("cls")] or r["vio"]
+        return {"obs": r["vio"], "violation": hit[0][0] if hit else None}
     if part == "B":
         r = public_case((rp["dt"], rp["start"], rp["mb"]))
     elif part == "L":
